@@ -277,6 +277,13 @@ func runC33(rec *kit.Recorder, c lsCase) (err error) {
 			}
 		}
 		st.upToDate += len(perf.UpToDate)
+		for _, k := range append(append([]string{}, perf.Index...), perf.UpToDate...) {
+			if invBefore[lsNameOf(k)] {
+				// the shard of a still wanted name is removed (moved repository, stale foreign shard)
+				st.label("sync:removal-of-a-wanted-name")
+				break
+			}
+		}
 		kind := step.Cmd.Op
 		st.label("cmd:" + kind)
 		if pErr != nil {
